@@ -21,12 +21,12 @@ RULE = ("one evaluation = one consumer (bnp.compute single/tuple/dict of genome.
         "forbes/jaccard, left_join) run on a generated genome of <= 4 contigs (prefix-related names, '_' names, "
         "Genome.from_file / from_dict / with_ignored_added, dict or ChromosomeSize for MultiStream) and one or two "
         "sequences of contig groups (any subset, any order, unknown and ignored names, every name one contiguous group) "
-        "cut into chunks (all cut sets swept for <= 7 entries in sweep runs); judged by conservation: completes => every "
+        "cut into chunks (all cut sets swept for <= 7 (thorough: 9) entries in sweep runs); judged by conservation: completes => every "
         "contig got exactly its entries, in genome order; incompatible order / unknown name => must raise. Non-trivial = "
         "the data is not simply 'all contigs in genome order in one chunk'; distinct = distinct tuples (consumer, source "
         "kinds, genome mode, order class of each stream incl. early/late position of the first offending group, chunking "
         "class, PYTHONHASHSEED class)")
-BUDGET = {"quick": (6000, 40), "thorough": (80000, 900)}
+BUDGET = {"quick": (12000, 40), "thorough": (80000, 900)}
 ASSUMPTIONS = ["the genome's order is the key order of the dict / chrom.sizes file (sorted when sort_names=True); ignored "
                "names are the genome's '_' names under the ignore_underscores filter plus the names given to with_ignored_added",
                "MultiStream / left_join have no ignored names: every name outside the contig list is unknown",
@@ -47,7 +47,7 @@ CONSUMER_WEIGHTS = [(3, "compute_gi"), (2, "compute_tuple"), (2, "compute_dict")
                     (3, "ms_exhaust"), (3, "forbes"), (2, "jaccard"), (2, "ms_write"), (2, "left_join"),
                     (1, "caller_zip"), (1, "early_break")]
 SCHEDS = [(3, "fixed"), (1, "sweep")]
-SWEEP_MAX_ENTRIES = 7
+SWEEP_MAX_ENTRIES = {"quick": 7, "thorough": 9}
 
 # shapes for which an exception on COMPATIBLE data is a violation of "each contig receives exactly the entries carrying
 # its name and contigs without data receive an empty table": the entry tables themselves are what is asked for
@@ -153,14 +153,15 @@ def evaluate(ctx, cons, g, sources, opts):
     return "ok", None
 
 
-def run(ctx):
+def generate(ctx):
+    """every decision of one run, drawn from the tape -> JSON-able scenario (the replay file stores it literally)"""
     tape = ctx.tape
     thorough = ctx.tier == "thorough"
     m = 4 if thorough else 3
     cons = S.BY_NAME[tape.weighted(CONSUMER_WEIGHTS, "consumer")]
     g = S.gen_genome(tape, cons.family,
-                     # KF-C12-underscore-keepall: Genome.from_dict keeps '_' names but the streamed walk skips them
-                     allow_underscore_keepall=not ctx.excl)
+                     # FX-C12-underscore-keepall is fixed in /repo: no exclusion left
+                     allow_underscore_keepall=True)
     sources = []
     for i in range(cons.nstreams):
         tag = "ab"[i]
@@ -169,7 +170,7 @@ def run(ctx):
         if how == "table" and not d.entries:
             how = "stream"
         k = S.file_k(tape, d, tag + ".")
-        if ctx.excl and cons.vulnerable == i:
+        if False and cons.vulnerable == i:   # FX-C12-trailing-check-unreached is fixed in /repo: exclusion switched off
             # KF-C12-trailing-check-unreached: the first offending group directly follows the group of the genome's
             # last contig, and this stream is not the first one the library pulls: the data is cut before that group
             v = S.Verdict(g, d)
@@ -180,10 +181,23 @@ def run(ctx):
     if cons.name == "ms_exhaust":
         opts["pull"] = tape.choice(["ab", "ba", "alternate"], "pull")
     sched = tape.weighted(SCHEDS, "sched")
-    ctx.scenario = {"consumer": cons.name, "genome": g.describe(), "streams": [s.describe() for s in sources],
-                    "options": opts, "schedule": sched}
-
     verdicts = [S.Verdict(g, s.d) for s in sources]
+    # generator decisions only (order_class is a pure function of genome + groups; kept here for finding matchers)
+    return {"consumer": cons.name, "genome": g.describe(),
+            "streams": [dict(s.describe(), order_class=v.order_class()) for s, v in zip(sources, verdicts)],
+            "not_first_pulled_stream": cons.vulnerable, "judged": cons.judged, "options": opts, "schedule": sched}
+
+
+def execute(ctx, sc):
+    """run a scenario (tape-free)"""
+    cons = S.BY_NAME[sc["consumer"]]
+    g = S.GenomeSpec.from_description(sc["genome"])
+    sources = [S.Source(S.DataSpec.from_description(x), x["how"], x["k"], "ab"[i]) for i, x in enumerate(sc["streams"])]
+    opts = dict(sc.get("options") or {})
+    sched = sc.get("schedule", "fixed")
+    verdicts = [S.Verdict(g, s.d) for s in sources]
+    if S.hashseed_class() != "hs0":
+        ctx.fault("hashseed_nonzero")
     ctx.probe("consumer_" + cons.name)
     for s, v in zip(sources, verdicts):
         if not v.order_ok:
@@ -225,14 +239,14 @@ def run(ctx):
     inconclusive = None
     a = sources[0]
     n_a = len(a.d.entries)
-    if sched == "sweep" and a.how == "stream" and 2 <= n_a <= SWEEP_MAX_ENTRIES:
+    if sched == "sweep" and a.how == "stream" and 2 <= n_a <= SWEEP_MAX_ENTRIES[ctx.tier if ctx.tier in SWEEP_MAX_ENTRIES else "quick"]:
         ctx.probe("sweep_all_cut_sets")
         for mask in range(1 << (n_a - 1)):
             srcs = [S.Source(a.d.with_cuts(mask), a.how, a.k, a.tag)] + sources[1:]
             try:
                 st, why = evaluate(ctx, cons, g, srcs, opts)
             except Violation as v:
-                v.rewrite = {"sched": 0, "a.cuts": mask}
+                v.rewrite = {"sched": 0, "a.cuts": mask}     # re-expressed on the tape as schedule=fixed with this cut set
                 raise
             if st == "inconclusive":
                 inconclusive = why
@@ -244,3 +258,10 @@ def run(ctx):
              ctx.evals, inconclusive)
     if inconclusive:
         raise Inconclusive(inconclusive)
+
+
+def run(ctx):
+    """README_DEV contract; the runner prefers generate/execute (literal replay of the stored scenario)"""
+    sc = generate(ctx)
+    ctx.scenario = sc
+    execute(ctx, sc)
